@@ -366,6 +366,9 @@ func genKill(seed uint64, idx int) *KillSpec {
 		if len(p.Blocks) > 3 {
 			p.Blocks = p.Blocks[:3]
 		}
+		if r.Bool(0.15) {
+			g.widen(&p)
+		}
 		ks.Plans = append(ks.Plans, StorePlan{Shape: p, Meta: r.Intn(3), Keys: r.Bool(0.3), SubmitMs: int64(i) * 1000})
 	}
 	return ks
